@@ -94,11 +94,26 @@ def replay(path):
     return 1
 
 
+def run_regressions(pid):
+    """seconds-long replay tier: the witnesses of repaired defects ('fixed' entries suppress nothing) must pass"""
+    import glob
+    out = []
+    files = sorted(glob.glob(os.path.join(VERIF, 'findings', 'regress', pid + '-*.replay')))
+    for f in files:
+        verdict, code, log = witness_status(f)
+        if verdict != 'pass':
+            out.append((os.path.basename(f), code, f))
+    return len(files), out
+
+
 def run(pid, tier, seed):
     t0 = time.time()
     if pid in HISTORY_PROPS:
         kf_lines = run_known_witnesses(pid)
+        nreg, reg_fail = run_regressions(pid)
         ev, violations, wall = core.run_history_property(pid, tier, seed, RULES.get(pid, 'see DESIGN.md'))
+        violations = [(n, c, p) for n, c, p in reg_fail] + violations
+        ev['regression_replays_run'] = nreg
         for l in kf_lines:
             print(l)
         ev['known_findings_reported'] = len(kf_lines)
